@@ -13,7 +13,7 @@ def label(body):
 
 def mloc(body, node):
     sp = node.get("sp") or body.get("sp") or [0, 0, 0, 0]
-    return "%s:%d" % (body.get("file", "?"), sp[0])
+    return "%s:%d" % (node.get("file") or body.get("file", "?"), sp[0])
 
 
 def cfg_of(ctx, body):
@@ -208,12 +208,167 @@ def role(ctx, name):
                  if any(n.get("k") == "Field" and n.get("name") == "injecting_vars" for n in walk(b["body"]))]
     elif name == "pragma_search":
         cands = fns_by_sig(ctx, lambda i: len(i) == 2 and i[0].startswith("&mut VueJsxTransformVisitor") and i[1] == "swc_common::Span", lambda o: o == "()")
+    elif name in ("fragment_pred", "on_pred"):
+        cands = fns_by_sig(ctx, lambda i: i == ["&str"], lambda o: o == "bool")
+        has = lambda b: any(const_str(n) == "Fragment" for n in walk(b["body"]))
+        cands = [b for b in cands if has(b) == (name == "fragment_pred")]
+    elif name == "first_lower":
+        cands = fns_by_sig(ctx, lambda i: i == ["&str"], lambda o: o == "alloc::string::String")
+        cands = [b for b in cands if not any(n.get("k") == "Loop" for n in walk(b["body"]))]
+    elif name == "member_to_expr":
+        cands = fns_by_sig(ctx, lambda i: i == ["&%sJSXMemberExpr" % A], lambda o: o == A + "Expr")
+    elif name == "v_model_parser":
+        cands = fns_by_sig(ctx, lambda i: len(i) == 4 and i[0] == "&%sJSXAttr" % A and i[1] == "bool", lambda o: o.endswith("Directive"))
+    elif name in ("v_slots_parser", "v_html_parser", "v_text_parser"):
+        want = {"v_slots_parser": "Slots", "v_html_parser": "Html", "v_text_parser": "Text"}[name]
+        cands = fns_by_sig(ctx, lambda i: i == ["&%sJSXAttr" % A], lambda o: o.endswith("Directive"))
+        cands = [b for b in cands if any(n.get("k") in ("Ctor", "Struct") and (n.get("adt") or "").endswith("Directive") and n.get("variant") == want for n in walk(b["body"]))]
+    elif name == "lit_key_unwrapper":
+        cands = fns_by_sig(ctx, lambda i: i == ["&%sPropName" % A], lambda o: o.startswith("core::option::Option<alloc::borrow::Cow<") and o.endswith("PropName>>"))
+    elif name == "attr_const_pred":
+        cands = fns_by_sig(ctx, lambda i: i == ["&%sJSXAttrValue" % A], lambda o: o == "bool")
+    elif name == "undefined_fn":
+        cands = fns_by_sig(ctx, lambda i: i == [], lambda o: o == A + "Expr")
+    elif name == "modifiers_parser":
+        cands = fns_by_sig(ctx, lambda i: i == ["&[core::option::Option<%sExprOrSpread>]" % A], lambda o: "BTreeSet<swc_atoms::Atom>" in o)
+    elif name == "slot_helper_fn":
+        cands = [b for b in fns_by_sig(ctx, lambda i: len(i) == 1 and i[0].startswith("&mut VueJsxTransformVisitor"), lambda o: o == A + "Ident")
+                 if any(n.get("k") == "Field" and n.get("name") == "slot_helper_ident" for n in walk(b["body"]))]
     else:
         raise KeyError(name)
+    if len(cands) > 1 and name in CANON:
+        # an extracted helper may share a signature: the documented name breaks the tie
+        named = [b for b in cands if b.get("name") == CANON[name]]
+        if len(named) == 1:
+            cands = named
     res = cands[0] if len(cands) == 1 else None
     ctx.cache[key] = res
     ctx.cache[("role_cands", name)] = [c["path"] for c in cands]
     return res
+
+
+# the name each role's function has on the reference tree: the rules' text expectations are written with these names, and the
+# canonical rendering (hirtext) prints whatever function fills the role under this name, so a renamed helper changes nothing
+CANON = {
+    "element_builder": "transform_jsx_element", "fragment_builder": "transform_jsx_fragment", "children_builder": "transform_children",
+    "attr_fold": "transform_attrs", "tag_fn": "transform_tag", "component_pred": "is_component", "directive_parser": "parse_directive",
+    "directive_pred": "is_directive", "import_fn": "import_from_vue", "pragma_fn": "get_pragma", "injector": "inject_define_component_option",
+    "wrapper": "wrap_children", "dc_pred": "is_define_component_call", "text_cleaner": "transform_text", "dedupe": "dedupe_props",
+    "is_constant": "is_constant", "props_extractor": "extract_props_type", "emits_extractor": "extract_emits_type",
+    "type_elements_resolver": "resolve_type_elements", "runtime_type_inferrer": "infer_runtime_type",
+    "indexed_access_resolver": "resolve_indexed_access", "string_union_resolver": "resolve_string_or_union_strings",
+    "props_builder": "build_props_type", "v_models_decoupler": "decouple_v_models", "slot_helper_builder": "build_slot_helper",
+    "modifiers_builder": "transform_modifiers", "jsx_text_fn": "transform_jsx_text", "resolve_directive_fn": "resolve_directive",
+    "iife_builder": "build_iife", "slot_ident_fn": "generate_unique_slot_ident", "pragma_search": "search_jsx_pragma",
+    "fragment_pred": "is_fragment_name", "on_pred": "is_on", "first_lower": "lower_first", "member_to_expr": "jsx_member_to_expr",
+    "v_model_parser": "parse_v_model_directive", "v_slots_parser": "parse_v_slots_directive", "v_html_parser": "parse_v_html_directive",
+    "v_text_parser": "parse_v_text_directive", "lit_key_unwrapper": "try_unwrap_lit_prop_name", "attr_const_pred": "is_jsx_attr_value_constant",
+    "undefined_fn": "undefined", "modifiers_parser": "parse_modifiers", "slot_helper_fn": "generate_slot_helper",
+}
+
+
+def canonicalise(ctx):
+    """give the function filling each role its reference name throughout the facts (a renamed helper changes nothing for the rules)"""
+    mapping = {}
+    taken = {}
+    for rname, canon in CANON.items():
+        b = role(ctx, rname)
+        if b is not None:
+            taken[(b["crate"], canon)] = b["path"]
+            if b["name"] != canon:
+                mapping[b["path"]] = "::".join(b["path"].split("::")[:-1] + [canon])
+    # a different local function that carries a reference name must not be taken for the role
+    for b in ctx.facts.hir:
+        if b["crate"] in (VISITOR_CRATE, PLUGIN_CRATE) and not b.get("mac") and (b["crate"], b.get("name")) in taken \
+                and taken[(b["crate"], b["name"])] != b["path"] and b["path"] not in mapping and not b.get("impl_trait"):
+            mapping[b["path"]] = b["path"] + "_other"
+    if mapping:
+        ctx.facts.rename_paths(mapping)
+        ctx.cache.clear()
+    return mapping
+
+
+LOCAL_NAMES = None
+
+
+def local_bindings(hb):
+    """[(type, name, binding id)] of a function in source order (closures included), `self` left out"""
+    out = []
+    for root in list(hb.get("params", [])) + [hb["body"]]:
+        for n in walk(root):
+            if n.get("k") == "PBind" and n.get("name") != "self":
+                out.append((n.get("ty") or "?", n["name"], n["id"]))
+    out.sort(key=lambda t: t[2])
+    return out
+
+
+def canonicalise_locals(ctx):
+    """The rules name locals the way the reviewed tree does (rules/local_names.json: per function, the (type, name) pairs in source
+    order). A local whose name is unknown to that table is presented under the reference name that no binding of the same type
+    carries any more, when that pairing is unambiguous (same number of unmatched names of that type, matched in order)."""
+    global LOCAL_NAMES
+    import json, os
+    from ..facts import rename_locals
+    if LOCAL_NAMES is None:
+        p = os.path.join(os.path.dirname(os.path.dirname(os.path.dirname(os.path.abspath(__file__)))), "rules", "local_names.json")
+        LOCAL_NAMES = json.load(open(p)) if os.path.exists(p) else {"functions": [], "locals": {}}
+    done = {}
+    for hb in ctx.facts.hir:
+        if hb["crate"] not in (VISITOR_CRATE, PLUGIN_CRATE) or hb.get("mac"):
+            continue
+        ref = LOCAL_NAMES["locals"].get(hb["crate"] + "::" + hb["path"])
+        if not ref:
+            continue
+        binds = local_bindings(hb)
+        by_ty_ref = {}
+        for ty, nm in ref:
+            by_ty_ref.setdefault(ty, [])
+            if nm not in by_ty_ref[ty]:
+                by_ty_ref[ty].append(nm)
+        by_ty_act = {}
+        for ty, nm, _ in binds:
+            by_ty_act.setdefault(ty, [])
+            if nm not in by_ty_act[ty]:
+                by_ty_act[ty].append(nm)
+        pair = {}
+        for ty, act in by_ty_act.items():
+            refn = by_ty_ref.get(ty, [])
+            a2 = [x for x in act if x not in refn]
+            r2 = [x for x in refn if x not in act]
+            if a2 and len(a2) == len(r2):
+                for x, y in zip(a2, r2):
+                    pair[(ty, x)] = y
+        if not pair:
+            continue
+        # one old name -> one new name, and the new name must not be carried by another live binding
+        by_old = {}
+        for (ty, x), y in pair.items():
+            by_old.setdefault(x, set()).add(y)
+        live = {nm for _, nm, _ in binds}
+        namemap = {x: next(iter(ys)) for x, ys in by_old.items() if len(ys) == 1 and next(iter(ys)) not in live}
+        idmap = {bid: namemap[nm] for ty, nm, bid in binds if nm in namemap and (ty, nm) in pair}
+        if idmap:
+            rename_locals(ctx.facts, hb, idmap, namemap)
+            done[hb["path"]] = namemap
+    if done:
+        ctx.cache.clear()
+    return done
+
+
+def inline_helpers(ctx):
+    """inline the helper functions the reviewed tree does not have (see vjsx/normalise.py)"""
+    from .. import normalise
+    if LOCAL_NAMES is None or not LOCAL_NAMES.get("functions"):
+        return {}
+    keep = set(LOCAL_NAMES["functions"])
+    for rname in CANON:      # a function that fills a role is analysed as that role wherever it lives now
+        b = role(ctx, rname)
+        if b is not None:
+            keep.add(b["crate"] + "::" + b["path"])
+    done = normalise.inline_new_helpers(ctx.facts, keep)
+    if done:
+        ctx.cache.clear()
+    return done
 
 
 def role_or_fail(ctx, rule, name):
